@@ -1,3 +1,3 @@
-From LV Require Import Base.Bytes Gen.GenBurl Gen.GenH1 Url.UrlModel H1.H1Model.
+From LV Require Import Base.Bytes Gen.GenBurl Gen.GenH1 Url.UrlModel H1.H1Model H1.ConnH1.
 Require Import ExtrOcamlBasic.
-Extraction "model.ml" h1_parse.
+Extraction "model.ml" h1_parse run_conn.
